@@ -446,6 +446,10 @@ impl C03 {
             def.extend_from_slice(b"\x1b\\\x1b[1*z");
             add(&format!("macro-hex-self-recursive-fanout-{k}"), "stream", "", vec![lit(&def)]);
         }
+        // a macro can also be invoked from inside a DCS string (ESC P ESC [ n * z): the body opens a DCS and invokes itself
+        add("macro-hex-recursive-through-dcs-0", "stream", "", vec![lit(b"\x1bP0;0;1!z1B501B5B302A7A\x1b\\\x1b[0*z")]);
+        add("macro-hex-recursive-through-dcs-1", "stream", "", vec![lit(b"\x1bP1;0;1!z781B501B5B312A7A\x1b\\\x1b[1*z")]);
+        add("macro-hex-recursive-through-dcs-mutual", "stream", "", vec![lit(b"\x1bP0;0;1!z1B501B5B312A7A\x1b\\\x1bP1;0;1!z611B501B5B302A7A\x1b\\\x1b[0*z\x1b[1*z")]);
         add("macro-hex-mutually-recursive", "stream", "", vec![lit(b"\x1bP1;0;1!z611B5B322A7A\x1b\\\x1bP2;0;1!z621B5B312A7A\x1b\\\x1b[1*z")]);
         add("macro-hex-doubling-chain", "stream", "", vec![lit(
             b"\x1bP1;0;1!z0A0A0A0A\x1b\\\x1bP2;0;1!z1B5B312A7A1B5B312A7A\x1b\\\x1bP3;0;1!z1B5B322A7A1B5B322A7A\x1b\\\x1bP4;0;1!z1B5B332A7A1B5B332A7A\x1b\\\x1bP5;0;1!z1B5B342A7A1B5B342A7A\x1b\\\x1bP6;0;1!z1B5B352A7A1B5B352A7A\x1b\\\x1bP7;0;1!z1B5B362A7A1B5B362A7A\x1b\\\x1bP8;0;1!z1B5B372A7A1B5B372A7A\x1b\\\x1bP9;0;1!z1B5B382A7A1B5B382A7A\x1b\\\x1bP10;0;1!z1B5B392A7A1B5B392A7A\x1b\\\x1bP11;0;1!z1B5B31302A7A1B5B31302A7A\x1b\\\x1bP12;0;1!z1B5B31312A7A1B5B31312A7A\x1b\\\x1bP13;0;1!z1B5B31322A7A1B5B31322A7A\x1b\\\x1bP14;0;1!z1B5B31332A7A1B5B31332A7A\x1b\\\x1bP15;0;1!z1B5B31342A7A1B5B31342A7A\x1b\\\x1bP16;0;1!z1B5B31352A7A1B5B31352A7A\x1b\\\x1b[16*z\x1b[16*z\x1b[16*z",
